@@ -27,6 +27,13 @@ CHECKS = {
             'non-extensible single-range/SIZE/FROM constraint is violated; same for decode(check_constraints=True)',
             'trusts vlib/model/constraints.py (35 lines) as the reading of which constraints count',
             'property-based testing (Hypothesis), differential against an independent constraint interpreter'),
+    'C12': ('hypothesis', 'exploration',
+            'generated modules x valid values; every component position x every applicable corruption (Python types the '
+            'type check rejects, unknown CHOICE alternative / ENUMERATED name, missing mandatory member, bound '
+            'violations) x 8 codecs: encode with checks raises EncodeError/ConstraintsError whose text starts with '
+            'the independently computed dotted path; the uncorrupted value is never rejected by the type check',
+            'expected path computed by vlib/model/paths.py; tokens inserted at recursive references are optional',
+            'property-based testing (Hypothesis), fault injection into values, independent path model'),
     'C13': ('hypothesis stateful', 'exploration',
             'Hypothesis rule-based state machine over one parsed dictionary: histories of up to 6 compile_dict calls '
             '(8 codecs x numeric_enums) interleaved with eval(pformat(d)), deepcopy and pre_process_dict; after every '
